@@ -95,3 +95,20 @@ CHECKS.update({
 CHECKS.pop("C18b")
 
 NOT_APPLICABLE = {}
+
+# Additions of the fifth session (DESIGN.md 11.5d, 12.1 round 5), appended to the claimed texts.
+ADDENDA = {
+    "C01": " The patmatrix histories (related patterns x names incl. case twins, both evaluation orders on the same compiled patterns) are validated too: a verdict is a function of the two versions, not of earlier calls.",
+    "C02": " Every row is also asked through best_match(n, n) (BestSelfL).",
+    "C04": " Every (pattern, name) row - all expansions and near misses - is asked through Pattern::matches and through best_match(n, n) (BestSelfL, checked equal by TLC); generated patterns include nesting depth 255-300 and 2^17 expansions.",
+    "C05": " Rows are asked through matches and through best_match(n, n); generated patterns end, now and then, in a literal harvested from the code under test (line ends, blanks, metacharacters).",
+    "C09": " One recorded stream per run holds a single 1.2 MB record written in 300 000-byte pieces.",
+    "C10": " Names on which the code's patch test and the statement's globs differ (emul-patch-x) are not judged (Distinfo!PatchJudged).",
+    "C11": " Every parsed text is probed with recorded names, their last components and longer/shorter spellings: a lookup finds an entry exactly under its recorded name in its own table (hits). Generated names and first lines draw on the literals of the code under test (dict.rs).",
+    "C12": " After the first verification the file is overwritten in place (same length and modification time, one byte changed) and verified again: the outcome follows the current content (AgainOK). Patch files are built around buffer boundaries (4 KiB ... 128 KiB).",
+    "C17": " An exhausted PkgDB iterator is called twice more.",
+    "C18": " Probes also ask best_match to choose between the name and dewey-equal candidates with more components and a higher / equal / lower revision.",
+    "C20": " +CONTENTS files reach across the 65 536th and 1 048 576th byte; next() after the end yields nothing.",
+}
+for _k, _v in ADDENDA.items():
+    CHECKS[_k]["text"] += _v
